@@ -1,0 +1,47 @@
+// This Source Code Form is subject to the terms of the Mozilla Public
+// License, v. 2.0. If a copy of the MPL was not distributed with this
+// file, You can obtain one at http://mozilla.org/MPL/2.0/.
+
+//go:build verif
+
+package server
+
+// Contracts for the deductive verifier in /verif (govc). Comment-only file: it
+// adds no code. Lines starting with //@ are parsed by govc; see /verif/DESIGN.md.
+//
+// C11, "no request can crash the server": every handler is verified panic-free for an arbitrary
+// request message. What the gRPC runtime guarantees is stated as preconditions: the request
+// pointer itself is non-nil and repeated message fields contain no nil elements (the protobuf
+// decoder never produces them); every other field is arbitrary (nil sub-messages, empty slices,
+// any enum value).
+
+//@ pred termsWF(terms []*v1alpha1.LabelTerm) := forall i int :: 0 <= i && i < len(terms) ==> terms[i] != nil
+//@
+//@ func ConvertLabelQuery
+//@   props C11 C14
+//@   requires [decoded] termsWF(terms)
+//@ func ConvertIDQuery
+//@   props C11 C14
+//@ func marshalResource
+//@   props C11
+//@   requires r != nil
+//@ func mapEvent
+//@   props C11
+//@ func (*State).Get
+//@   props C11
+//@   requires server != nil && server.state != nil && req != nil
+//@ func (*State).Create
+//@   props C11
+//@   requires server != nil && server.state != nil && req != nil
+//@ func (*State).Update
+//@   props C11
+//@   requires server != nil && server.state != nil && req != nil
+//@ func (*State).Destroy
+//@   props C11
+//@   requires server != nil && server.state != nil && req != nil
+//@ func (*State).Teardown
+//@   props C11
+//@   requires server != nil && server.state != nil && req != nil
+//@ func (*State).TeardownAndDestroy
+//@   props C11
+//@   requires server != nil && server.state != nil && req != nil
